@@ -71,6 +71,7 @@ func runC07(c *core.Ctx) *core.Outcome {
 	} else {
 		prof := fullProfile(t, cfg.FlagCount)
 		prof.BadUTF8 = t.Chance(1, 10) // results are byte strings to the VM: some are not valid UTF-8
+		prof.SizeFlip = t.Chance(1, 6) // the same symbol as a paginated sink in one node and as a sized value in another
 		a = app.Generate(t, prof)
 		if err := a.Validate(); err != nil {
 			panic("generator produced ill-formed app: " + err.Error())
